@@ -643,6 +643,12 @@ fn construct(src: &str) -> &'static str {
     if has("$ ") || src.ends_with('$') || has("$\n") {
         return "multiline-string";
     }
+    if lines.iter().any(|l| {
+        let t = l.trim_start();
+        (t.starts_with('┌') || t.starts_with("---")) && (t.contains('~') || t.contains('≁'))
+    }) {
+        return "module-header-import";
+    }
     if has("┌") || has("└") {
         return "module";
     }
